@@ -72,3 +72,7 @@ def run(project, rep):
     rep.rule("W-R8", "the header written for a version is of the kind the reader expects and the body is decoded with the codec the header declares (B-R1, B-R3, B-R6, H-R1..H-R3; the refusing side of the header classes is C12's)")
     rep.run_only(("B-R1", "B-R3", "B-R6"), H.b_rules, project, rep)
     rep.run(H.h_rules, project, rep)
+    from .. import rules_values as _V15
+    rep.run(_V15.v_r15_no_html5_entity_decoder, project, rep)
+    from .. import rules_wire as _W2b
+    rep.run(_W2b.l_r2b_every_handwritten_producer_escapes, project, rep)
